@@ -8,6 +8,7 @@
      gacross  <seed> <n> <agel> l... <ager> r...
      decreate <seed> <n> lo hi ...
      decross  <seed> <p> <flo> <fhi> <n> <aget> t... <agea> a... <ageb> b... <agec> c...
+     decrossa <seed> <alias> <p> ...   the same with aliased operands: <alias> = 4 digits for target, a, b, c; equal digits = one object
    When the part after "|" is the word SEED the operators are run FROM THE SEED of the case line (vita::random::seed)
    through the modelled engine and libstdc++ distributions; the output then ends with "| <the draws the model made>".
    output:  g <genes> age <a> [n <changed>] [cuts c1 c2 | F <hex>] rest <unconsumed draws>   or  NONE *)
@@ -25,6 +26,12 @@ let rec pairs f = function a :: b :: r -> (f a, f b) :: pairs f r | [] -> [] | _
 let show_ints l = String.concat " " (List.map dec_of_z l)
 let show_f64s l = String.concat " " (List.map hex_of_f64 l)
 let nrest ds = string_of_int (List.length ds)
+(* decrossa <seed> <alias pattern> ... is decross with some of the four operands being the SAME C++ object; for the model
+   that only means equal vectors in those roles, which the case line already spells out *)
+let case_words (case : string) : string list =
+  match split_ws case with
+  | "decrossa" :: seed :: _alias :: rest -> "decross" :: seed :: rest
+  | w -> w
 let show_draw = function
   | DInt (lo, hi, v) -> "i:" ^ dec_of_z lo ^ ":" ^ dec_of_z hi ^ ":" ^ dec_of_z v
   | DReal (lo, hi, v) -> "r:" ^ hex_of_f64 lo ^ ":" ^ hex_of_f64 hi ^ ":" ^ hex_of_f64 v
@@ -45,7 +52,7 @@ let () =
       let ds = if seeded then [] else List.map parse_draw (split_ws draws) in
       (try
         if seeded then
-        (match split_ws case with
+        (match case_words case with
          | "gacreate" :: seed :: n :: rest ->
              let (rg, _) = take (2 * int_of_string n) rest in
              (match sga_create fuel (pairs zi rg) (seed_state seed) with
@@ -91,7 +98,7 @@ let () =
               | None -> print_endline "NONE")
          | _ -> print_endline "BADLINE")
         else
-        (match split_ws case with
+        (match case_words case with
          | "gacreate" :: _ :: n :: rest ->
              let (rg, _) = take (2 * int_of_string n) rest in
              (match ga_create (pairs zi rg) ds with
